@@ -31,7 +31,7 @@ class ResWorld(World):
     name = "W-res"
 
     def __init__(self, variant: str = "full", low_energy: bool = True, pairs: bool = True, prices: bool = False,
-                 mechs=("quiet", "small", "quiet"), idle_timeout: int = 120, gas: bool = False, name: str = ""):
+                 mechs=("quiet", "small", "quiet"), idle_timeout: int = 120, gas: bool = False, name: str = "", atomic_pairs: bool = False):
         super().__init__()
         self.pairs = pairs
         if name:
@@ -96,6 +96,16 @@ class ResWorld(World):
             ]
         self.controller_menu = [("I", k[0], vid) + tuple(k[1:]) for vid in ("v0", "v1", "v2") for k in per_vehicle]
         self.per_vehicle = per_vehicle
+        # C09 atomicity: the full menu incl. wrong plug / far away / missing target / missing vehicle, on every reached state
+        full = per_vehicle + [k for k in [
+            ("DispatchStation", "s0", "LEVEL_1"), ("ChargeStation", "s1", "DCFC"), ("ReserveBase", "b1"), ("ChargeBase", "b1", "LEVEL_2"),
+            ("ChargeBase", "b0", "DCFC"), ("DispatchStation", "nope", "DCFC"), ("DispatchBase", "nope"), ("ChargeStation", "nope", "DCFC"),
+            ("ReserveBase", "nope"), ("DispatchTrip", "nope")] if k not in per_vehicle]
+        self.atomic_menu = [("I", k[0], vid) + tuple(k[1:]) for vid in ("v0", "v1", "v2") for k in full] + [("I", "Idle", "ghost"), ("I", "ChargeStation", "ghost", "s0", "DCFC")]
+        self.atomic_pairs = atomic_pairs
+        pair_kinds = [("Idle",), ("DispatchTrip", "r0"), ("ChargeStation", "s0", "DCFC"), ("DispatchStation", "s0", "DCFC"),
+                      ("ReserveBase", "b0"), ("ChargeBase", "b0", "LEVEL_2"), ("DispatchBase", "b0")]
+        self.pair_menu = [("I", k[0], vid) + tuple(k[1:]) for vid in ("v0", "v1", "v2") for k in pair_kinds]
 
 
 def make(**kw) -> ResWorld:
